@@ -79,6 +79,8 @@ def oracle(ir, ex, p, doms, matched, full):
 
 def main(chk):
     ir = chk.load_ir()
+    from symx import selfcheck
+    selfcheck.obligation(chk, {'strings'}, ir)      # hostnameInDomain etc.: encoding vs native build on concrete host / domain pairs
     quick = chk.tier == 'quick'
     confs = [(0, 0), (1, 0), (2, 0), (0, 1), (1, 1), (2, 2)] if quick else [(d, r) for d in range(0, 4) for r in range(0, 3)]
     chk.bounds = {'domains x patterns': confs, 'strings': 'unbounded (sequence theory)'}
